@@ -184,21 +184,25 @@ pub fn get(prop: &str, tier: &str) -> Option<Check> {
         },
         "C09" => Check {
             prop: "C09",
-            rule_text: "each run: one cell of the grid {min 1.2,1.3} x {authority, self-signed} x {authz, none} x {rodbus server, rodbus client} x peer versions {1.2 only, 1.3 only, both} x peer certificate {valid, wrong authority / different self-signed, wrong name (client role), expired, not yet valid, role-less, differently-roled}, under random record chunking, short writes, latency, and (fault batches) plaintext-instead-of-hello / EOF mid-handshake; the peer is a bare tokio_rustls endpoint configured directly with rustls protocol versions and a permissive verifier. Oracle model::tls_grid: application data flows iff certificate acceptable AND peer offers a version >= min (and, with authz, the certificate carries a role); negotiated version >= min; role seen by the authorization handler = certificate role; otherwise zero application bytes and zero handler/authorization calls. Distinct = grid cell x chunking flags x decode level.",
+            rule_text: "each run: one cell of the grid {min 1.2,1.3} x {authority, self-signed} x {authz, none} x {rodbus server, rodbus client} x peer versions {1.2 only, 1.3 only, both} x peer certificate {valid, wrong authority / different self-signed, wrong name (client role), expired, not yet valid, role-less, differently-roled}, under random record chunking, short writes, latency, and (fault batches) plaintext-instead-of-hello / EOF mid-handshake; the peer is a bare tokio_rustls endpoint configured directly with rustls protocol versions and a permissive verifier. Oracle model::tls_grid: application data flows iff certificate acceptable AND peer offers a version >= min (and, with authz, the certificate carries a role); negotiated version >= min; role seen by the authorization handler = certificate role; otherwise zero application bytes and zero handler/authorization calls. Distinct = grid cell x chunking flags x decode level. History batch (tls_server_history): 2-3 rodbus TLS listeners with different trust (CA1, CA2, one self-signed certificate), own authz/min-version settings, in one process; 2-6 connections by six identities, each identity reusing one rustls client configuration (session store, TLS 1.2 session ids, TLS 1.3 tickets) across listeners; every connection is judged by the same oracle on its own certificate and listener, whatever was established before (resumed handshakes are counted as a probe).",
             batches: vec![
                 Batch { name: "tls_grid_server", f: scen::tls::run_server_grid, cfg: cfg(Mode::Racy, false, 0), runs: n(1_200, 60_000), real: REAL_TLS, stub: STUB_TLS },
                 Batch { name: "tls_grid_client", f: scen::tls::run_client_grid, cfg: cfg(Mode::Racy, false, 0), runs: n(1_000, 50_000), real: REAL_TLS, stub: STUB_TLS },
                 Batch { name: "tls_grid_server_faults", f: scen::tls::run_server_grid, cfg: cfg(Mode::Racy, true, 0), runs: n(400, 20_000), real: REAL_TLS, stub: STUB_TLS },
                 Batch { name: "tls_grid_client_faults", f: scen::tls::run_client_grid, cfg: cfg(Mode::Racy, true, 0), runs: n(400, 20_000), real: REAL_TLS, stub: STUB_TLS },
+                Batch { name: "tls_server_history", f: scen::tls::run_server_history, cfg: cfg(Mode::Racy, false, 0), runs: n(800, 40_000), real: REAL_TLS, stub: STUB_TLS },
+                Batch { name: "ffi_server_tls_authz", f: scen::ffi::run_server_tls_authz, cfg: cfg(Mode::Racy, false, 0), runs: n(500, 25_000), real: REAL_FFI, stub: STUB_FFI },
             ],
             assumptions: vec!["rustls honours the protocol-version list it is configured with (trusted base)", "validity-period cells compare the real system clock with fixture dates decades away", "ciphertext bytes differ run to run (ring RNG); message sizes do not"],
         },
         "C08" => Check {
             prop: "C08",
-            rule_text: "each run: real TLS server with an authorization handler, a client certificate from 8 fixtures (roles operator, viewer, admin, 200-char, non-ASCII, trailing space, empty, leaf+CA chain), a policy (allow-all, deny-all, the built-in read-only handler, pseudo-random table over (function, unit, range/index, role), role equality, deny-one-unit, allow-only-one-exact-request), 1-12 requests (valid / grammar; repeats of the previous request with the same start and another quantity; configured and unconfigured units) over a real TLS session; oracle: reply stream and the interleaved authorization/point-handler journal equal model::server with that policy and role (authorization query first with the request's unit, range or index and the certificate role; deny => exception 01, no handler call, no state change; allow => as without authorization; decisions per request). Distinct = hash of (policy, role, request prefixes).",
+            rule_text: "each run: real TLS server with an authorization handler, a client certificate from 8 fixtures (roles operator, viewer, admin, 200-char, non-ASCII, trailing space, empty, leaf+CA chain), a policy (allow-all, deny-all, the built-in read-only handler, pseudo-random table over (function, unit, range/index, role), role equality, deny-one-unit, allow-only-one-exact-request), 1-12 requests (valid / grammar; repeats of the previous request with the same start and another quantity; configured and unconfigured units) over a real TLS session; oracle: reply stream and the interleaved authorization/point-handler journal equal model::server with that policy and role (authorization query first with the request's unit, range or index and the certificate role; deny => exception 01, no handler call, no state change; allow => as without authorization; decisions per request). History batches: (tls_server_history) several listeners and identities reusing their TLS sessions, the role of every connection comes from its own certificate; (ffi_server_tls_authz) a C-ABI TLS server whose extern \"C\" authorization callbacks record the role string they receive and allow exactly one role, 1-4 sessions with different role certificates, 1-3 reads/writes each: every callback sees the session's own certificate role, unit and range/index, and the reply follows its decision. Distinct = hash of (policy, role, request prefixes).",
             batches: vec![
                 Batch { name: "tls_authz_model", f: scen::tls::run_authz_model, cfg: cfg(Mode::Racy, false, 0), runs: n(6_000, 300_000), real: REAL_TLS, stub: STUB_TLS },
                 Batch { name: "tls_grid_server", f: scen::tls::run_server_grid, cfg: cfg(Mode::Racy, false, 0), runs: n(600, 30_000), real: REAL_TLS, stub: STUB_TLS },
+                Batch { name: "tls_server_history", f: scen::tls::run_server_history, cfg: cfg(Mode::Racy, false, 0), runs: n(600, 30_000), real: REAL_TLS, stub: STUB_TLS },
+                Batch { name: "ffi_server_tls_authz", f: scen::ffi::run_server_tls_authz, cfg: cfg(Mode::Racy, false, 0), runs: n(800, 40_000), real: REAL_FFI, stub: STUB_FFI },
             ],
             assumptions: vec!["role strings are those of the committed fixture certificates (no hook is used to inject arbitrary roles)", "the authorization policy is a pure function implemented by the harness"],
         },
@@ -225,12 +229,13 @@ pub fn get(prop: &str, tier: &str) -> Option<Check> {
         },
         "C18" => Check {
             prop: "C18",
-            rule_text: "each run drives the generated extern \"C\" functions on the simulated runtime: (client) 3-16 operations over all eight functions with arbitrary unit ids and timeouts, outcomes forced by the peer (correct reply, any of 256 exception codes, reply-grammar variants, silence until the exact timeout in virtual ms, invalid MBAP header, peer close), invalid arguments (empty / overflowing / over-limit ranges), a queue-full burst submitted without stepping the simulation, runtime destruction with a request pending, calls after shutdown; every callback must fire exactly once with the same-named counterpart of what the Rust API reports (table written from the schema), on_destroy exactly once, listener states in order; (serial client) port-state mapping, retry strategy and baud-dependent inter-frame delay pass through unchanged; (server) each of the four write callbacks returns a scripted WriteResult (success / nine standard exceptions / raw 0-255) and must see exactly the written values, the client must receive exactly that result. Distinct = hash of operations and outcomes.",
+            rule_text: "each run drives the generated extern \"C\" functions on the simulated runtime: (client) 3-16 operations over all eight functions with arbitrary unit ids and timeouts, outcomes forced by the peer (correct reply, any of 256 exception codes, reply-grammar variants, silence until the exact timeout in virtual ms, invalid MBAP header, peer close), invalid arguments (empty / overflowing / over-limit ranges), a queue-full burst submitted without stepping the simulation, runtime destruction with a request pending, calls after shutdown; every callback must fire exactly once with the same-named counterpart of what the Rust API reports (table written from the schema), on_destroy exactly once, listener states in order; (serial client) port-state mapping, retry strategy and baud-dependent inter-frame delay pass through unchanged; (server) each of the four write callbacks returns a scripted WriteResult (success / nine standard exceptions / raw 0-255) and must see exactly the written values, the client must receive exactly that result; (TLS server with authorization) the extern \"C\" authorization callbacks receive the certificate role, unit and range/index of every request of every session and their decision reaches the client. Distinct = hash of operations and outcomes.",
             batches: vec![
                 Batch { name: "ffi_client", f: scen::ffi::run_client, cfg: cfg(Mode::LockStep, false, 0), runs: n(40_000, 1_500_000), real: REAL_FFI, stub: STUB_FFI },
                 Batch { name: "ffi_server_tcp", f: scen::ffi::run_server, cfg: cfg(Mode::LockStep, false, 0), runs: n(40_000, 1_500_000), real: REAL_FFI, stub: STUB_FFI },
                 Batch { name: "ffi_client_tls", f: scen::ffi::run_client_tls, cfg: cfg(Mode::Racy, false, 0), runs: n(1_500, 60_000), real: REAL_FFI, stub: STUB_FFI },
                 Batch { name: "ffi_client_rtu", f: scen::ffi::run_client_rtu, cfg: cfg(Mode::LockStep, false, 0), runs: n(30_000, 1_000_000), real: REAL_FFI, stub: STUB_FFI },
+                Batch { name: "ffi_server_tls_authz", f: scen::ffi::run_server_tls_authz, cfg: cfg(Mode::Racy, false, 0), runs: n(800, 40_000), real: REAL_FFI, stub: STUB_FFI },
             ],
             assumptions: vec!["only valid enumerator values cross the boundary (the generated From<c_int> impls panic on others by oo-bindgen's design)", "Java/.NET/C++ layers above the C ABI are out of scope"],
         },
